@@ -505,8 +505,8 @@ def run_pipeline(op, example, batches, start=NO, with_state=False, raw=False, sn
     errs[k] = the exception emit() raised for batch k (or None)."""
     tr = Trace()
     lg = logging.getLogger('streamz')
-    old_disabled = lg.disabled
-    lg.disabled = True
+    old_level = lg.level
+    lg.setLevel(logging.CRITICAL + 10)         # streamz.core logs every exception an accumulate function raises
     sink = None
     try:
         with warnings.catch_warnings(), np.errstate(all='ignore'):
@@ -527,7 +527,7 @@ def run_pipeline(op, example, batches, start=NO, with_state=False, raw=False, sn
                     tr.errs.append(e)
                 tr.outs.append(L[n0:])
     finally:
-        lg.disabled = old_disabled
+        lg.setLevel(old_level)
         if sink is not None:
             try:
                 sink.destroy()                         # sinks are pinned in a global set
